@@ -9,7 +9,8 @@ package gabi
 // single-leaf arithmetic changes, key moves/copies/re-keys, sibling swaps, the split of every
 // hidden attribute into a disclosed part x and a hidden remainder, and order shifts of every
 // response across both ends of the allowed range.  Every alteration is also made on a struct copy of an object that went through a successful
-// verification before (state left in unexported fields travels along).  Oracle: semantic (the harness signed the
+// verification before (state left in unexported fields travels along), and the altered proof is verified as a
+// member of a two-proof list next to the honest one.  Oracle: semantic (the harness signed the
 // credential, so it knows every attribute) + independent reference verifier.
 
 import (
@@ -351,6 +352,21 @@ func c01Run(t *testing.T, sub, keyName string, maxN int, withAlterations bool, m
 				if (ok3 || ok4) && !(ok1 || ok2) {
 					c01Judge(r, pk, attrs, p3, alt.class+"|on-a-previously-verified-object", true, caseID)
 					r.Count("accepted only on a previously verified object", 1)
+				}
+				// fourth route: the altered proof as a member of a longer list, before and after the honest proof
+				// (same key twice): a member that cannot be reconstructed must make the whole list fail
+				for _, first := range []bool{true, false} {
+					pa, ph := c01Clone(honest), c01Clone(honest)
+					alt.apply(pa)
+					l := ProofList{pa, ph}
+					if !first {
+						l = ProofList{ph, pa}
+					}
+					var okl bool
+					if pan, _ := vkit.Guard(func() { okl = l.Verify([]*gabikeys.PublicKey{pk, pk}, vfContext, vfNonce, false, nil) }); !pan && okl {
+						c01Judge(r, pk, attrs, pa, alt.class+"|as-a-member-of-a-two-proof-list", true, caseID)
+						r.Count("altered proof accepted as a member of a two-proof list", 1)
+					}
 				}
 				acc := ok1 || ok2
 				c01Judge(r, pk, attrs, p, alt.class, acc, caseID)
